@@ -870,6 +870,19 @@ namespace
 	    touch = true;
 	  }
       }
+    else if (op == "REMAP")
+      {
+	// The file behind a path is replaced (as if overwritten on disk):
+	// descriptors that are open keep what they had, later opens see the
+	// new contents.
+	if (s.args.size () >= 2)
+	  {
+	    fs_add_override (hexdec (s.args[0]), hexdec (s.args[1]), 0, {});
+	    ev << " ok";
+	  }
+	else
+	  ev << " skip why=" << hexenc ("bad-args");
+      }
     else if (op == "NOP")
       ev << " ok";
     else
